@@ -93,7 +93,18 @@ func (n *nodeSim) connected(p int) bool {
 	return ps.up && ps.inst != nil && ps.inst.isStarted() && !ps.inst.dead
 }
 
-func (n *nodeSim) onPeerUp(ps *peerState) {}
+func (n *nodeSim) onPeerUp(ps *peerState) {
+	// a bundle whose destination is connected goes to the destination only; peers that appear
+	// meanwhile are served on a later retry (checked in the finale), not "as soon as" they appear
+	for _, tr := range n.tracks {
+		if dp := tr.dstPeer(n); dp != 0 && dp != ps.idx && n.connected(dp) {
+			if tr.noSpread == nil {
+				tr.noSpread = map[int]bool{}
+			}
+			tr.noSpread[ps.idx] = true
+		}
+	}
+}
 func (n *nodeSim) onRestart()             {}
 func (n *nodeSim) onTick()                {}
 
@@ -258,6 +269,15 @@ func (n *nodeSim) checkSettled(where string) {
 			// I1 retention
 			n.res.Probe("retention_checked")
 			bi, ok := items[tr.spec.Tag]
+			if _, there := n.storeItem(tr.id); !ok && there && tr.via == "deliver" {
+				sig := "retained-but-not-marked-for-retry"
+				if tr.reinjected > 0 {
+					sig += "/after-duplicate-reception"
+				}
+				n.res.Violate("C05", "I1-retention", sig+"/"+n.algo, "%s (%s, accepted %v ago, no successful transmission) is in the store but not flagged pending at %s (received %d times)",
+					tr.spec.Tag, tr.via, time.Since(tr.tAccept), where, tr.reinjected+1)
+				continue
+			}
 			if !ok {
 				sig := "accepted-bundle-not-retained"
 				switch {
@@ -269,6 +289,9 @@ func (n *nodeSim) checkSettled(where string) {
 				if tr.incarnAcc != n.incarn {
 					sig += "/after-restart"
 				}
+				if n.idReusedAfterRestart(tr) {
+					sig = "accepted-bundle-not-retained/clockless-id-reused-after-restart"
+				}
 				n.res.Violate("C05", "I1-retention", sig, "%s (%s, accepted %v ago, lifetime ends in %v, no successful transmission) is not pending in the store at %s",
 					tr.spec.Tag, tr.via, time.Since(tr.tAccept), time.Until(tr.expiry), where)
 				continue
@@ -278,6 +301,9 @@ func (n *nodeSim) checkSettled(where string) {
 			if !bytes.Equal(payloadOf(&lb), payloadOf(&tr.bundle)) {
 				n.res.Violate("C05", "I1-retention", "retained-payload-differs", "%s: stored payload differs from the accepted one", tr.spec.Tag)
 			}
+		}
+		if n.idReusedAfterRestart(tr) {
+			continue // reported once under I1
 		}
 		// I2 direct delivery
 		if dp := tr.dstPeer(n); dp != 0 && n.connected(dp) && tr.successTo(dp) == nil {
@@ -297,15 +323,19 @@ func (n *nodeSim) checkSettled(where string) {
 					if !n.connected(ps.idx) || ps.sensor || tr.spec.Prev == ps.idx || tr.successTo(ps.idx) != nil {
 						continue
 					}
-					if tr.dstPeer(n) != 0 && n.connected(tr.dstPeer(n)) {
+					if (tr.dstPeer(n) != 0 && n.connected(tr.dstPeer(n))) || tr.noSpread[ps.idx] {
 						continue // direct delivery takes precedence over spreading
 					}
-					since := ps.upEpoch
-					if tr.epochAcc > since {
-						since = tr.epochAcc
+					if ps.upEpoch <= tr.epochAcc {
+						continue // "newly connected" peers only; older ones are covered by the retry oracle
 					}
+					since := ps.upEpoch
 					if !n.invokedSince(tr, ps.idx, since) {
-						n.res.Violate("C05", "I3-epidemic", "not-offered-to-new-peer/"+n.algo, "%s is retained, p%d connected at epoch %d and does not have it, but no Send was invoked since (%s)",
+						sig := "not-offered-to-new-peer/" + n.algo
+						if tr.overlapRMW {
+							sig += "/overlapping-failure-reports"
+						}
+						n.res.Violate("C05", "I3-epidemic", sig, "%s is retained, p%d connected at epoch %d and does not have it, but no Send was invoked since (%s)",
 							tr.spec.Tag, ps.idx, ps.upEpoch, where)
 					}
 				}
@@ -352,7 +382,7 @@ func (n *nodeSim) finale() {
 	}
 	for i := 0; i < len(n.ex.Bundles); i++ {
 		tr := n.tracks[i]
-		if tr == nil || tr.localDst || tr.refused != "" || tr.dupOf != 0 || !n.live(tr) {
+		if tr == nil || tr.localDst || tr.refused != "" || tr.dupOf != 0 || !n.live(tr) || n.idReusedAfterRestart(tr) {
 			continue
 		}
 		if dp := tr.dstPeer(n); dp != 0 && n.connected(dp) {
@@ -379,6 +409,9 @@ func (n *nodeSim) finale() {
 					}
 					if failed > 0 {
 						sig = "failed-peer-not-retried/" + n.algo
+						if tr.overlapRMW {
+							sig += "/overlapping-failure-reports"
+						}
 					}
 					n.res.Violate("C05", "I6-failure-bookkeeping", sig, "%s is retained, p%d is connected and never got it, a fault-free retry interval passed, still no transmission (failed sends so far: %d)", tr.spec.Tag, ps.idx, failed)
 				}
@@ -447,3 +480,19 @@ func (n *nodeSim) checkNodeGenerated(rec *sendRec) {
 }
 
 var _ = fmt.Sprintf
+
+// idReusedAfterRestart: tr is a clock-less local submission, and an earlier incarnation of the
+// node filed another clock-less submission of the same source that is still in the store: the
+// sequence counter restarts at zero with the process, so both get the same bundle ID.
+func (n *nodeSim) idReusedAfterRestart(tr *btrack) bool {
+	if tr.via == "deliver" || !tr.bundle.PrimaryBlock.CreationTimestamp.IsZeroTime() {
+		return false
+	}
+	for _, o := range n.tracks {
+		if o != tr && o.via != "deliver" && o.incarnAcc < tr.incarnAcc && o.bundle.PrimaryBlock.CreationTimestamp.IsZeroTime() &&
+			o.bundle.PrimaryBlock.SourceNode == tr.bundle.PrimaryBlock.SourceNode {
+			return true
+		}
+	}
+	return false
+}
